@@ -342,6 +342,76 @@ func init() {
 						c.Violation("use-inside-slot-body", fmt.Sprintf("the page rendered %s, want %q", got.Describe(), want.String()), map[string]any{"files": describeFiles(files)})
 					}
 				}},
+				// components with 4..65 slots (named ones and the default one), the caller passing all, every other one or
+				// none, in declaration order or reversed; with 1..17 arguments
+				{Name: "many-slots-and-arguments", Exhaustive: true, N: 9 * 4, Run: func(c *core.Ctx, i int) {
+					n := []int{4, 8, 9, 16, 17, 32, 33, 64, 65}[i%9]
+					variant := i / 9
+					var comp, page, want strings.Builder
+					nArgs := 1 + n%17
+					comp.WriteString("<c")
+					want.WriteString("[<c")
+					page.WriteString("[@component(\"~many\", {")
+					for a := 0; a < nArgs; a++ {
+						fmt.Fprintf(&comp, " {{ a%d }}", a)
+						fmt.Fprintf(&want, " v%d", a*a)
+						if a > 0 {
+							page.WriteString(", ")
+						}
+						fmt.Fprintf(&page, "a%d: \"v\" + %d.str()", a, a*a)
+					}
+					comp.WriteString(">")
+					want.WriteString(">")
+					page.WriteString("})")
+					order := make([]int, n)
+					for k := range order {
+						order[k] = k
+						if variant%2 == 1 {
+							order[k] = n - 1 - k
+						}
+					}
+					passed := map[int]string{}
+					for _, k := range order {
+						if variant == 2 && k%2 == 0 || variant == 3 {
+							continue
+						}
+						if k == n/2 {
+							fmt.Fprintf(&page, "@slot default body %d@end", k)
+							passed[k] = fmt.Sprintf(" default body %d", k)
+						} else {
+							fmt.Fprintf(&page, "@slot(\"s%d\")body %d {{ a0 }}@end", k, k)
+							passed[k] = fmt.Sprintf("body %d v0", k)
+						}
+					}
+					for k := 0; k < n; k++ {
+						if k == n/2 {
+							comp.WriteString("(@slot)")
+						} else {
+							fmt.Fprintf(&comp, "(@slot(\"s%d\"))", k)
+						}
+						fmt.Fprintf(&want, "(%s)", passed[k])
+					}
+					comp.WriteString("</c>")
+					want.WriteString("</c>]")
+					if variant != 3 {
+						page.WriteString("@end")
+					}
+					page.WriteString("]")
+					files := map[string]string{"components/many.tw": comp.String(), "page.tw": page.String()}
+					tpl, err := loadTree(c, "c07many", files, ".tw")
+					c.Nontrivial(page.String())
+					if err != nil {
+						c.Violation("load-failed", "a valid component tree was rejected: "+err.Error(), map[string]any{"files": describeFiles(files)})
+						return
+					}
+					if tpl == nil {
+						return
+					}
+					got, _ := renderPage(c, tpl, "page", nil)
+					if !got.Panicked && (got.Err != nil || got.Out != want.String()) {
+						c.Violation("many-slots", fmt.Sprintf("the page rendered %s, want %q", clipS(got.Describe(), 600), clipS(want.String(), 600)), map[string]any{"files": describeFiles(files)})
+					}
+				}},
 				// text between a component's ")" and what follows is text unless it is plain whitespace before a @slot:
 				// whatever the rest renders to, these bytes must be in the output
 				{Name: "text-after-component", Exhaustive: true, N: 9 * 3, Run: func(c *core.Ctx, i int) {
